@@ -12,6 +12,7 @@ import numpy as np
 from harness import graphgen as gg
 from harness.common import WORK, Failure, HarnessError, cbool, dtype_name, exn_name
 from harness.storelib import Interner, abstract_meta_obj, c_meta, c_otree, dump_tree, tree_printable
+from harness import keystore as kst
 
 PROP = "C01"
 PARALLEL = True
@@ -25,7 +26,9 @@ EXHAUSTIVE_BLOCKS = ["N in {0,1,2} x one node property over every dtype x rank {
 ASSUMPTIONS = ["zarr codecs/chunking and numpy byte representation are trusted: the model's store holds decoded arrays (harness/storelib.dump_tree)",
                "validity of a metadata document is decided by geff_spec.GeffMetadata.model_validate (modelled in C07)",
                "string payloads and non-dyadic / non-finite floats are opaque tokens in the model (never compared or ordered there)",
-               "property names containing '/' or control characters are outside the model (oracle-only)"]
+               "property names containing '/' or control characters are outside the model (oracle-only)",
+               "key level (every third random case): the raw keys after the write are abstracted inside Coq (KeyStore.v) and must equal the dumped tree; "
+               "chunk bytes are decoded by the harness (numcodecs + numpy.frombuffer); chunk encoding itself stays trusted"]
 
 STORE_KINDS = ["mem", "local", "path", "str"]
 
@@ -96,7 +99,7 @@ def generate(rng: random.Random, tier: str):
         g = gg.rand_graph(rng)
         yield {"kind": "write", "wf": True, "store": rng.choice(STORE_KINDS) if i % 3 == 0 else "mem", "fmt": rng.choice([2, 3]),
                "pre": "foreign" if rng.random() < 0.2 else "fresh", "validate": rng.random() < 0.9,
-               "overwrite": rng.random() < 0.1, **g}
+               "overwrite": rng.random() < 0.1, "ktie": i % 3 == 0, **g}
     # names zarr cannot use as a single member name: the write must be refused cleanly or round-trip exactly (oracle only)
     for nm in ("a/b", ".", "..", "/x", "x/", "a//b", ".zarray", "zarr.json", ".zattrs"):
         for fmt in (2, 3):
@@ -241,6 +244,10 @@ def run_impl(c):
         except Exception as e:
             obs["res"] = ["err", exn_name(e), str(e)[:120]]
         post = dump_tree(store, it)
+        # the RAW KEYS after the write (harness/keystore.py), for the key-level tie of the surviving tree (every third case: cheap)
+        raw = kst.try_raw_dump(store, it, c["fmt"]) if c.get("ktie") and post is not None else None
+        if c.get("ktie") and post is not None and raw is None:
+            obs["keys_error"] = kst.LAST_ERROR[0]
         back = None
         try:
             back = read_to_memory(store)
@@ -254,6 +261,11 @@ def run_impl(c):
                 r = "(Ok tt)" if obs["res"][0] == "ok" else f"(Err {obs['res'][1]})"
                 b = f"(Ok {gg.c_mgraph(back, it)})" if back is not None else f"(Err {obs['back'][1]})"
                 obs["coq"] = f"({coq_in}, OWrite {r} {c_otree(post)} {b})"
+                if raw is not None and coq_in.startswith("IWrite "):
+                    kterm, _ = kst.c_kstore(raw)
+                    obs["coq"] = (f"(IWriteK {coq_in[len('IWrite '):]} {kst.c_fmt(c['fmt'])} {kterm} {kst.geff_version_term(raw)}, "
+                                  f"OWrite {r} {c_otree(post)} {b})")
+                    obs["keys_tied"] = len(raw["items"])
             except HarnessError:
                 pass
     finally:
@@ -263,6 +275,9 @@ def run_impl(c):
 
 
 def coq_case(c, o):
+    if o.get("keys_tied"):
+        KEY_STATS["stores_tied_at_key_level"] += 1
+        KEY_STATS["keys"] += o["keys_tied"]
     return o.get("coq")
 
 
@@ -287,6 +302,9 @@ def oracle(c, o):
                        {"why": "read-raises", "exc": o["back"][1]})
     if o.get("diff"):
         return Failure(c, strip(o), f"read-back differs: {o['diff']}", {"why": "differs", "what": o["diff"].split(":")[0][:40]})
+    if o.get("keys_error") and c["pre"] == "fresh":
+        return Failure(c, strip(o), f"key level: after a successful write the store's keys cannot be read as a zarr format {c['fmt']} store: "
+                       f"{o['keys_error']}", {"why": "key-layout"})
     return None
 
 
@@ -312,6 +330,9 @@ def search(rng, budget):
             yield c
 
 
+KEY_STATS = {"stores_tied_at_key_level": 0, "keys": 0}
+
+
 def extra_coverage():
     shutil.rmtree(scratch_dir(), ignore_errors=True)
-    return {}
+    return {"key_level": dict(KEY_STATS)}
